@@ -186,7 +186,7 @@ class AddrFields(DataflowTransactionContext):  # pylint: disable=too-few-public-
     def _set_addr_values(ctx_addr_value: "AddrFieldValue", addr_values: Set[str]) -> None:
         ctx_addr_value.any_addr = ANY_ADDRESS in addr_values
         ctx_addr_value.no_addr = NO_ADDRESS in addr_values
-        ctx_addr_value.possible_addr = list(addr_values - set([ANY_ADDRESS, NO_ADDRESS]))
+        ctx_addr_value.possible_addr = sorted(addr_values - set([ANY_ADDRESS, NO_ADDRESS]))
 
     def _store_results(self) -> None:
         key_and_addr_obj: List[
